@@ -278,6 +278,9 @@ def verify_function(qualname, contract, schema, timeout_ms=10000, contracts=None
         # the contract is on a loop body: the statements of the `for` whose iterable has the given source text, executed
         # for an arbitrary element (the loop variable is a contract parameter)
         hits = [n for n in ast.walk(fi.node) if isinstance(n, ast.For) and ast.unparse(n.iter).replace('"', "'") == frag["iter"].replace('"', "'")]
+        if frag.get("body_contains"):
+            # several loops over the same iterable: the one whose body mentions the given text
+            hits = [n for n in hits if frag["body_contains"] in "\n".join(ast.unparse(b) for b in n.body)]
         if len(hits) != 1:
             raise Unsupported("fragment: %d loops over %s in %s" % (len(hits), frag["iter"], qualname))
         body_stmts = hits[0].body
